@@ -41,6 +41,10 @@ def coerce(cls: Type[T], data: Any) -> T:
             return bool(data)  # type: ignore
         else:
             raise bad_type(data, cls)
+    elif cls is float and isinstance(data, bool):
+        # bool is not a number: as for int, where the isinstance shortcut above hands
+        # the bool to IntMethod, which rejects it
+        raise bad_type(data, cls)
     elif cls in (int, float):
         try:
             return cls(data)  # type: ignore
